@@ -283,7 +283,7 @@ pub fn run(args: &Args) -> ! {
     let hist_depth = if thorough { 3 } else { 2 };
     for t in trees.iter().filter(|t| t.len() >= 2 && t.len() <= 3) {
         for (ci, (_, c)) in cfgs.iter().enumerate() {
-            if !thorough && ci != 0 && ci != 5 {
+            if !thorough && ci != 0 {
                 continue;
             }
             // histories of remove / re-add over the tree's files
